@@ -70,6 +70,11 @@ def check_cfg(ctx, fx, cfg):
             ctx.require(okc, "R06.2", "spawn_future-caller:%s@%s" % (f["def"], cfg), "a future is spawned outside the timer registrar", fn=f["def"], site=t["l"])
     # R06.3 child table only in the context
     holders = [a["def"] for a in fx.d["adts"] for fl in a["variants"][0]["fields"] if len(a["variants"]) == 1 and "dyn core::any::Any" in fl["ty"] and a["def"].split("::")[0] != "actor"] if True else []
+    # ... held by the Context directly, or through a wrapper type that is the type of the Context's child-table field
+    cfields = {fl["name"]: fl["ty"] for fl in fx.adts["context::Context"]["variants"][0]["fields"]} if "context::Context" in fx.adts else {}
+    wrappers = {ty.split("<")[0] for ty in cfields.values() if ty.split("<")[0] in fx.adts}
+    holders = ["context::Context" if h_ in wrappers else h_ for h_ in holders]
+    holders = sorted(set(holders))
     ctx.require(holders == ["context::Context"], "R06.3", "child-table-holder@" + cfg, "type-erased child storage outside the Context: %s" % holders, site=fx.adts["context::Context"]["loc"], detail=holders)
     # R06.4 joins
     for f in fx.impl_fns("actor::spawner::Spawner"):
@@ -108,7 +113,7 @@ def check_cfg(ctx, fx, cfg):
             co = [c for c in fx.children_of(pf["def"]) if c["kind"] == "coroutine"][0]
             b = ctx.body(fx, co)
             A = nfa.Alphabet(calls=[("send", nfa.callee_is("addr::sender::Sender::<M>::send", "addr::sender::Sender::<M>::force_send")), ("iternext", nfa.callee_ends("Iterator::next"))], adts={"core::option::Option": "Option", "core::result::Result": "Res"})
-            n = nfa.build(b, A)
+            n = nfa.build(b, A, fx, depth=2)
             viols, ps = nfa.check(n, c09.FanOut())
             ctx.count_nfa(n.stats(), ps)
             for v in viols:
@@ -159,7 +164,7 @@ def check_timer_list(ctx, fx, cfg, ab, R_ATOMIC, R_ACCESS):
         if own:
             touch.setdefault(root, []).extend(own)
         # a wrapper method that makes a future abortable and records the handle is part of the registrar
-        if (f.get("impl_self") or "").split("<")[0] in inner and any((t_.get("callee") or "").endswith("abortable::abortable") for _x, t_ in b.normal_calls()):
+        if _abortable_parts(b) is not None:
             recorders.add(root)
     allowed = set(ab) | set(r for r in timers.registrars(fx) if r.startswith("context::")) | recorders
     for fn_, locs in sorted(touch.items()):
@@ -207,84 +212,72 @@ class _RegOrder(nfa.Spec):
         return st
 
 
+def _abortable_parts(b):
+    """(task operand, local of the abortable future, local of the abort handle, site) if body b makes a future abortable:
+    `let (fut, handle) = abortable(task)` or `let (handle, reg) = AbortHandle::new_pair(); let fut = Abortable::new(task, reg)`"""
+    def split(pair):
+        parts = {}
+        for l, defs in b.assigns.items():
+            for (_bi, _si, st) in defs:
+                r = st["r"]
+                if r["k"] == "use" and r["o"]["k"] in ("move", "copy") and r["o"]["p"][0] == pair and len(r["o"]["p"]) == 2:
+                    parts[r["o"]["p"][1]] = l
+        return parts
+    ab = [(bi, t) for bi, t in b.normal_calls() if (t.get("callee") or "").endswith("abortable::abortable")]
+    if len(ab) == 1:
+        parts = split(ab[0][1]["dest"][0])
+        if "f0" in parts and "f1" in parts:
+            return ab[0][1]["args"][0], parts["f0"], parts["f1"], ab[0][1]["l"]
+        return None
+    np_ = [(bi, t) for bi, t in b.normal_calls() if (t.get("callee") or "").startswith("futures_util::abortable::") and (t.get("callee") or "").endswith("::new_pair")]
+    an = [(bi, t) for bi, t in b.normal_calls() if (t.get("callee") or "").startswith("futures_util::abortable::") and (t.get("callee") or "").endswith("::new") and len(t["args"]) == 2]
+    if len(np_) == 1 and len(an) == 1:
+        parts = split(np_[0][1]["dest"][0])
+        reg_ok = "f1" in parts and all(o.kind == "call" and o.site == (np_[0][0],) for o in b.origins(an[0][1]["args"][1]))
+        if "f0" in parts and reg_ok and len(an[0][1]["dest"]) == 1:
+            return an[0][1]["args"][0], an[0][1]["dest"][0], parts["f0"], an[0][1]["l"]
+        return None
+    return None
+
+
 def check_registrar(ctx, fx, f, cfg):
+    """the registrar R hands a future to the runtime; R itself, or one synchronous helper H it calls on the same context
+    (a method of the context or of the task list's wrapper type), makes that future abortable and records the handle in
+    the context's timer list before the future is spawned"""
     b = ctx.body(fx, f)
     inst = "registrar:%s@%s" % (f["def"], cfg)
-    ab = [(bi, t) for bi, t in b.normal_calls() if (t.get("callee") or "").endswith("abortable::abortable")]
-    if not ab:
-        # the wrapping and recording may live in a method of the list's wrapper type that hands back the abortable future:
-        # `let task = self.tasks.register(task); A::spawn_future(task)`
-        inner = {a for a, _f in timers.list_holders(fx)[1:]}
-        helpers = []
+    h, hb, hcall = f, b, None
+    parts = _abortable_parts(b)
+    if parts is None:
+        cands = []
         for hbi, ht in b.normal_calls():
-            h = fx.callee_fn(ht)
-            if h is not None and (h.get("impl_self") or "").split("<")[0] in inner and not h.get("is_async") and any((x.get("callee") or "").endswith("abortable::abortable") for _y, x in ctx.body(fx, h).normal_calls()):
-                helpers.append((hbi, ht, h))
-        if ctx.require(len(helpers) == 1, "R06.2", inst, "the registrar must wrap the timer future with abortable() exactly once (directly or through one method of the task list)", fn=f["def"], site=f["loc"]):
-            hbi, ht, h = helpers[0]
-            hb = ctx.body(fx, h)
-            hinst = "registrar:%s@%s" % (h["def"], cfg)
-            hab = [(bi, t) for bi, t in hb.normal_calls() if (t.get("callee") or "").endswith("abortable::abortable")]
-            okh = len(hab) == 1 and all(r.kind == "arg" for r in roots(hb, hab[0][1]["args"][0]))
-            pair = hab[0][1]["dest"][0] if hab else None
-            fut_l = han_l = None
-            for l, defs in hb.assigns.items():
-                for (_bi, _si, st) in defs:
-                    r = st["r"]
-                    if r["k"] == "use" and r["o"]["k"] in ("move", "copy") and r["o"]["p"][0] == pair and len(r["o"]["p"]) == 2:
-                        if r["o"]["p"][1] == "f0":
-                            fut_l = l
-                        elif r["o"]["p"][1] == "f1":
-                            han_l = l
-            pushed = [s for s in (sinks(hb, han_l) if han_l is not None else []) if s["k"] == "call" and (s["t"].get("callee") or "").endswith("::push") and timers.ABORT_HANDLE in (s["t"].get("self_ty") or "")]
-            on_list = bool(timers.touches_list(fx, h, hb))
-            returned = fut_l is not None and any(s["k"] == "ret" for s in sinks(hb, fut_l))
-            ctx.require(okh and len(pushed) == 1 and on_list and returned, "R06.2", hinst + ":records-handle", "the task-list method must make its argument abortable, record the handle in the list and hand back the abortable future", fn=h["def"], site=h["loc"], detail={"abortable": len(hab), "pushed": len(pushed), "on_list": on_list, "returned": returned})
-            # in the registrar: the helper works on the context's list, gets the parameter, and its result is what is spawned
-            recv_ok = any(a == "context::Context" for a, _f2, bi2, _p in timers.touches_list(fx, f, b))
-            arg_ok = len(ht["args"]) >= 2 and all(r.kind == "arg" for r in roots(b, ht["args"][1]))
-            fs = [s for s in sinks(b, ht["dest"][0]) if s["k"] == "call"]
-            spawned = [s for s in fs if nfa.trait_method(timers.T_SPAWNF, "spawn_future")(s["t"])]
-            ctx.require(recv_ok and arg_ok and len(spawned) == 1, "R06.2", inst + ":spawns-abortable", "the future handed to the runtime must be the abortable one made from the registrar's parameter on the context's own list", fn=f["def"], site=ht["l"], detail={"recv": recv_ok, "arg": arg_ok, "spawned": len(spawned)})
-            A2 = nfa.Alphabet(calls=[("push", lambda x, _h=h: (x.get("resolved") or x.get("callee")) == _h["def"]), ("spawn", nfa.trait_method(timers.T_SPAWNF, "spawn_future"))])
-            n2 = nfa.build(b, A2)
-            v2, p2 = nfa.check(n2, _RegOrder())
-            ctx.count_nfa(n2.stats(), p2)
-            for v in v2:
-                ctx.viol("R06.2", inst + ":order", v["msg"], fn=f["def"], site=f["loc"], trace=v["trace"])
-            if not v2:
-                ctx.ok("R06.2", inst + ":order", f["loc"], n2.stats())
-        return
-    if not ctx.require(len(ab) == 1, "R06.2", inst, "the registrar must wrap the timer future with abortable() exactly once", fn=f["def"], site=f["loc"]):
-        return
-    bi, t = ab[0]
+            g = fx.callee_fn(ht)
+            if g is not None and g["kind"] in ("fn", "assoc_fn") and not g.get("is_async") and _abortable_parts(ctx.body(fx, g)) is not None:
+                cands.append((ht, g))
+        if not ctx.require(len(cands) == 1, "R06.2", inst, "the registrar must make the timer future abortable exactly once (directly or through one helper it calls)", fn=f["def"], site=f["loc"]):
+            return
+        hcall, h = cands[0]
+        hb = ctx.body(fx, h)
+        parts = _abortable_parts(hb)
+    task_op, fut_l, han_l, site = parts
+    hinst = inst if h is f else "registrar:%s@%s" % (h["def"], cfg)
     # the future made abortable is the parameter
-    ctx.require(all(r.kind == "arg" for r in roots(b, t["args"][0])), "R06.2", inst + ":wraps-argument", "abortable() is applied to something else than the timer future", fn=f["def"], site=t["l"])
-    pair = t["dest"][0]
-    fut_l = han_l = None
-    for l, defs in b.assigns.items():
-        for (_bi, _si, st) in defs:
-            r = st["r"]
-            if r["k"] == "use" and r["o"]["k"] in ("move", "copy") and r["o"]["p"][0] == pair and len(r["o"]["p"]) == 2:
-                if r["o"]["p"][1] == "f0":
-                    fut_l = l
-                elif r["o"]["p"][1] == "f1":
-                    han_l = l
-    if not ctx.require(fut_l is not None and han_l is not None, "R06.2", inst + ":pair", "cannot see both halves of abortable()", fn=f["def"], site=t["l"]):
-        return
-    hs = [s for s in sinks(b, han_l) if s["k"] == "call"]
-    pushed = [s for s in hs if (s["t"].get("callee") or "").endswith("::push") and timers.ABORT_HANDLE in (s["t"].get("self_ty") or "")]
-    on_tasks = False
-    for s in pushed:
-        # receiver is the context's timer list
-        on_tasks = bool(timers.touches_list(fx, f, b))
-    ctx.require(len(pushed) == 1 and on_tasks, "R06.2", inst + ":records-handle", "the abort handle must be recorded in the context's task list", fn=f["def"], site=t["l"])
-    fs = [s for s in sinks(b, fut_l) if s["k"] == "call"]
-    spawned = [s for s in fs if nfa.trait_method(timers.T_SPAWNF, "spawn_future")(s["t"])]
-    ctx.require(len(spawned) == 1, "R06.2", inst + ":spawns-abortable", "the future handed to the runtime must be the abortable one", fn=f["def"], site=t["l"], detail=[s["t"].get("callee") for s in fs])
-    # all paths: push before spawn, both before return
-    A = nfa.Alphabet(calls=[("push", lambda x: (x.get("callee") or "").endswith("::push") and timers.ABORT_HANDLE in (x.get("self_ty") or "")), ("spawn", nfa.trait_method(timers.T_SPAWNF, "spawn_future"))])
-
+    ctx.require(all(r.kind == "arg" for r in roots(hb, task_op)), "R06.2", hinst + ":wraps-argument", "abortable() is applied to something else than the timer future", fn=h["def"], site=site)
+    pushed = [s for s in sinks(hb, han_l) if s["k"] == "call" and (s["t"].get("callee") or "").endswith("::push") and timers.ABORT_HANDLE in (s["t"].get("self_ty") or "")]
+    on_list = bool(timers.touches_list(fx, h, hb))
+    ctx.require(len(pushed) == 1 and on_list, "R06.2", hinst + ":records-handle", "the abort handle must be recorded in the context's task list", fn=h["def"], site=site)
+    A = nfa.Alphabet(calls=[("push", (lambda x: (x.get("callee") or "").endswith("::push") and timers.ABORT_HANDLE in (x.get("self_ty") or "")) if h is f else (lambda x, _h=h: (x.get("resolved") or x.get("callee")) == _h["def"])), ("spawn", nfa.trait_method(timers.T_SPAWNF, "spawn_future"))])
+    if h is f:
+        fs = [s for s in sinks(b, fut_l) if s["k"] == "call"]
+        spawned = [s for s in fs if nfa.trait_method(timers.T_SPAWNF, "spawn_future")(s["t"])]
+        ctx.require(len(spawned) == 1, "R06.2", inst + ":spawns-abortable", "the future handed to the runtime must be the abortable one", fn=f["def"], site=site, detail=[s["t"].get("callee") for s in fs])
+    else:
+        returned = fut_l == 0 or any(s["k"] == "ret" for s in sinks(hb, fut_l))
+        recv_ok = bool(hcall["args"]) and all(r.kind in ("arg", "upvar") for r in roots(b, hcall["args"][0]))
+        arg_ok = len(hcall["args"]) >= 2 and all(r.kind == "arg" for r in roots(b, hcall["args"][1]))
+        fs = [s for s in sinks(b, hcall["dest"][0]) if s["k"] == "call"]
+        spawned = [s for s in fs if nfa.trait_method(timers.T_SPAWNF, "spawn_future")(s["t"])]
+        ctx.require(returned and recv_ok and arg_ok and len(spawned) == 1, "R06.2", inst + ":spawns-abortable", "the future handed to the runtime must be the abortable one made from the registrar's parameter on the context's own list", fn=f["def"], site=hcall["l"], detail={"returned": returned, "recv": recv_ok, "arg": arg_ok, "spawned": len(spawned)})
     n = nfa.build(b, A)
     viols, ps = nfa.check(n, _RegOrder())
     ctx.count_nfa(n.stats(), ps)
@@ -292,3 +285,4 @@ def check_registrar(ctx, fx, f, cfg):
         ctx.viol("R06.2", inst + ":order", v["msg"], fn=f["def"], site=f["loc"], trace=v["trace"])
     if not viols:
         ctx.ok("R06.2", inst + ":order", f["loc"], n.stats())
+    return h
